@@ -31,6 +31,7 @@ PID = 'C15'
 
 META = {
     'level': 'exploration',
+    'fork_batches': True,       # each batch runs in a forked child of the pool worker (bounded memory)
     'runs': {'quick': 60000, 'thorough': 6000000},
     'batch': {'quick': 500, 'thorough': 5000},
     'wall_cap': {'quick': 600, 'thorough': 3000},
